@@ -179,7 +179,7 @@ def render_lp(rng, lp, cn, rn, ints=()):
     return text, (lp.sense, cols, rows)
 
 
-def compare_expected(expected, back, cn_of):
+def compare_expected(expected, back, cn_of, optional=()):
     """back = (lp, colnames, rownames, intflags) from the API dump"""
     sense, cols, rows = expected
     lp1, cn1, rn1, flags = back
@@ -198,15 +198,18 @@ def compare_expected(expected, back, cn_of):
                 diffs.append("column %s (obj, lower, upper, integer) denotes %s but was read as %s" % (nm, [q2s(x) if not isinstance(x, bool) else x for x in w],
                                                                                                         [q2s(x) if not isinstance(x, bool) else x for x in g2]))
     for nm in got:
-        if nm not in cols:
+        if nm not in cols and nm not in optional:
             diffs.append("unexpected column %s" % nm)
     # rows: order is preserved by the reader; compare as a sequence, names only where given
     exp_rows = rows
     if len(lp1.rows) != len(exp_rows):
         diffs.append("%d rows denoted, %d delivered" % (len(exp_rows), len(lp1.rows)))
     else:
-        for i, (nm, s, rhs, ent) in enumerate(exp_rows):
+        for i, row_ in enumerate(exp_rows):
+            nm, s, rhs, ent = row_[:4]
             r = lp1.rows[i]
+            if len(row_) > 4 and row_[4] is not None and (r[0] != "R" or F(r[2]) != F(row_[4])):
+                diffs.append("row %d denotes a ranged row of width %s but was read as %s with range %s" % (i, q2s(row_[4]), r[0], q2s(r[2])))
             want = {}
             for j, a in ent:
                 want[cn_of[j]] = want.get(cn_of[j], F(0)) + F(a)
@@ -220,6 +223,176 @@ def compare_expected(expected, back, cn_of):
                 diffs.append("row %d denotes %s %s {%s} but was read as %s %s {%s}" % (i, s, q2s(rhs), ", ".join("%s:%s" % (k, q2s(v)) for k, v in sorted(want.items())),
                                                                                      r[0], q2s(r[1]), ", ".join("%s:%s" % (k, q2s(v)) for k, v in sorted(have.items()))))
     return diffs
+
+
+def render_mps(rng, lp, cn, rn, ints=()):
+    """Independent MPS rendering of a known problem: (text, expected, optional columns).  Free layout (blank-separated fields), one or two
+    entries per record, comment lines, `$` comments where the reader's field count allows them, zero right-hand sides omitted, a ranged row as
+    G / L / E row plus a RANGES record (sign conventions of the format), every bound type, integer markers, an OBJSENSE section, additional
+    free (N) rows after the objective (they are no constraints; a column that occurs in such a row only is not part of the problem), a second
+    RHS / BOUNDS / RANGES set (only the first one counts)."""
+    sp = lambda: rng.choice([" ", "  ", "    ", "\t", "          "])
+    num = lambda v: ("-" if F(v) < 0 else rng.choice(["", "", "", "+"])) + literal(rng, abs(F(v)))
+    L = []
+    dollar = lambda: rng.choice(["", "", "", sp() + "$ comment in place of a second pair", sp() + "$"])    # field 5 of COLUMNS / RHS / RANGES records
+    if rng.chance(0.3):
+        L.append("* generated")
+    L.append("NAME" + sp() + "demo")
+    if lp.sense == "max" or rng.chance(0.2):
+        L += ["OBJSENSE", sp() + (rng.choice(["MAX", "max", "Maximize", "MAXIMIZE"]) if lp.sense == "max" else rng.choice(["MIN", "min", "Minimize"]))]
+    objname = "obj" if "obj" not in rn else "zz_cost"
+    L.append("ROWS")
+    L.append(" N" + sp() + objname)
+    extraN = rng.chance(0.35)
+    rows_out, rng_recs, rhs_recs = [], [], []
+    rowsyms = []
+    for i, r in enumerate(lp.rows):
+        s, rhs, rg, ent = r
+        if s != "R":
+            rowsyms.append((rn[i], s))
+            if F(rhs) != 0 or rng.chance(0.2):
+                rhs_recs.append((rn[i], F(rhs)))
+            rows_out.append((rn[i], s, F(rhs), ent, None))
+        else:
+            lo, w = F(rhs), F(rg)
+            form = rng.choice(["G", "L", "E+", "E-"]) if w != 0 else rng.choice(["G", "L"])
+            if form == "G":
+                rowsyms.append((rn[i], "G")); rhsv = lo; rv = w * rng.choice([1, -1])
+            elif form == "L":
+                rowsyms.append((rn[i], "L")); rhsv = lo + w; rv = w * rng.choice([1, -1])
+            elif form == "E+":
+                rowsyms.append((rn[i], "E")); rhsv = lo; rv = w
+            else:
+                rowsyms.append((rn[i], "E")); rhsv = lo + w; rv = -w
+            if rhsv != 0 or rng.chance(0.2):
+                rhs_recs.append((rn[i], rhsv))
+            rng_recs.append((rn[i], rv))
+            rows_out.append((rn[i], "R", lo, ent, w))
+    for k, (nm, s) in enumerate(rowsyms):
+        if extraN and k == len(rowsyms) // 2:
+            L.append(" N" + sp() + "nfree_")
+        L.append(" " + s + sp() + nm)
+        if rng.chance(0.08):
+            L.append("* a comment line")
+    if extraN and not rowsyms:
+        L.append(" N" + sp() + "nfree_")
+    L.append("COLUMNS")
+    colent = {j: [] for j in range(len(cn))}
+    for j, c in enumerate(lp.cols):
+        if c[0] != 0:
+            colent[j].append((objname, F(c[0])))
+    for i, r in enumerate(lp.rows):
+        for j, a in r[3]:
+            colent[j].append((rn[i], F(a)))
+    optional = []
+    order = list(range(len(cn)))
+    inmark = False
+    dropped_at = rng.below(len(cn) + 1) if (extraN and rng.chance(0.6)) else None
+
+    def emit(name, ents):
+        ents = rng.shuffle(list(ents)) if rng.chance(0.5) else list(ents)
+        k = 0
+        while k < len(ents):
+            if k + 1 < len(ents) and rng.chance(0.5):
+                L.append(sp() + name + sp() + ents[k][0] + sp() + num(ents[k][1]) + sp() + ents[k + 1][0] + sp() + num(ents[k + 1][1]))
+                k += 2
+            else:
+                L.append(sp() + name + sp() + ents[k][0] + sp() + num(ents[k][1]) + dollar())
+                k += 1
+    for pos, j in enumerate(order):
+        if dropped_at == pos:
+            if inmark:
+                L.append(sp() + "MK" + sp() + "'MARKER'" + sp() + "'INTEND'"); inmark = False
+            emit("zdrop_", [("nfree_", F(rng.rint(1, 9)))])
+            optional.append("zdrop_")
+        isint = j in ints
+        if isint and not inmark:
+            L.append(sp() + "MK" + sp() + "'MARKER'" + sp() + "'INTORG'"); inmark = True
+        if not isint and inmark:
+            L.append(sp() + "MK" + sp() + "'MARKER'" + sp() + "'INTEND'"); inmark = False
+        ents = list(colent[j])
+        if extraN and rng.chance(0.4):
+            ents.append(("nfree_", F(rng.rint(-5, 5)) or F(1)))
+        emit(cn[j], ents)
+    if dropped_at == len(order):
+        if inmark:
+            L.append(sp() + "MK" + sp() + "'MARKER'" + sp() + "'INTEND'"); inmark = False
+        emit("zdrop_", [("nfree_", F(2))])
+        optional.append("zdrop_")
+    if inmark:
+        L.append(sp() + "MK" + sp() + "'MARKER'" + sp() + "'INTEND'")
+    if rhs_recs or rng.chance(0.3):
+        L.append("RHS")
+        second = rng.chance(0.25)
+        k = 0
+        while k < len(rhs_recs):
+            if k + 1 < len(rhs_recs) and rng.chance(0.4):
+                L.append(sp() + "rhsA" + sp() + rhs_recs[k][0] + sp() + num(rhs_recs[k][1]) + sp() + rhs_recs[k + 1][0] + sp() + num(rhs_recs[k + 1][1]))
+                k += 2
+            else:
+                L.append(sp() + "rhsA" + sp() + rhs_recs[k][0] + sp() + num(rhs_recs[k][1]) + dollar())
+                k += 1
+            if second and rng.chance(0.5) and rowsyms:
+                L.append(sp() + "rhsB" + sp() + rng.choice(rowsyms)[0] + sp() + num(F(77)))
+    if rng_recs:
+        L.append("RANGES")
+        for nm, v in rng_recs:
+            L.append(sp() + "rngA" + sp() + nm + sp() + num(v) + dollar())
+    cols = {}
+    B = []
+    for j, c in enumerate(lp.cols):
+        o, lo, up = c
+        nm = cn[j]
+        isint = j in ints
+        rec = lambda t, v=None: B.append(" " + t + sp() + "bndA" + sp() + nm + ((sp() + v) if v is not None else "") + (rng.choice(["", "", sp() + "$ a comment"]) if v is not None else ""))
+        if isint:
+            # integer columns always get explicit bounds (the default for an unbounded integer column differs between dialects)
+            if lo == NINF or up == INF:
+                lo, up = F(0), INF
+                rec("LO", num(0)); rec("PL")
+            else:
+                rec("LO", num(lo)); rec("UP", num(up))
+        elif lo == 0 and up == INF:
+            if rng.chance(0.15):
+                rec(rng.choice(["PL"]))
+        elif lo == NINF and up == INF:
+            if rng.chance(0.7):
+                rec("FR")
+            else:
+                rec("MI"); rec("PL")
+        elif lo != NINF and up != INF and F(lo) == F(up):
+            if rng.chance(0.7):
+                rec("FX", num(lo))
+            else:
+                rec("LO", num(lo)); rec("UP", num(up))
+        elif lo == NINF:
+            if F(up) < 0 and rng.chance(0.4):
+                rec("UP", num(up))                       # a negative upper bound alone: the lower bound becomes -infinity
+            elif rng.chance(0.5):
+                rec("MI"); rec("UP", num(up))
+            else:
+                rec("LO", rng.choice(["-inf", "-INF", "-Infinity", "-1e30" if False else "-inf"])); rec("UP", num(up))
+        elif up == INF:
+            rec("LO", num(lo))
+            if rng.chance(0.2):
+                rec("UP", rng.choice(["inf", "+inf", "INFINITY", "+Infinity"]))
+        else:
+            if F(lo) == 0 and F(up) > 0 and rng.chance(0.5):
+                rec("UP", num(up))
+            else:
+                if rng.chance(0.5):
+                    rec("LO", num(lo)); rec("UP", num(up))
+                else:
+                    rec("UP", num(up)); rec("LO", num(lo))
+        cols[nm] = (F(o), lo, up, isint)
+    if B:
+        L.append("BOUNDS")
+        if rng.chance(0.2) and cn:
+            B.insert(rng.below(len(B)) + 1, " UP" + sp() + "bndB" + sp() + cn[0] + sp() + "12345")      # second bound set: ignored
+        L += B
+    L.append("ENDATA")
+    text = "\n".join(L) + ("\n" if rng.chance(0.85) else "")
+    return text, (lp.sense, cols, rows_out), optional
 
 
 NOTE = {}
@@ -246,13 +419,28 @@ def run_c10(ev, rep, rng, exe, quick, pinf, ninf):
         if OBJ_LABEL[0] == "" and any(row[0] == "obj" for row in expected[2]):
             NOTE[text] = "unnamed-objective-and-row-obj"
         jobs.append((text, expected, cn))
+    OPT = {}
+    FMT = {}
+    for k in range(150 if quick else 3000):
+        r = rng.fork("m%d" % k)
+        lp, cn, rn = p_files.named_problem(r)
+        if all(c[0] == 0 for c in lp.cols):
+            lp.cols[0][0] = F(1)
+        for row in lp.rows:
+            if row[0] == "R" and F(row[2]) < 0:
+                row[2] = -F(row[2])
+        ints = sorted(set(r.below(len(cn)) for _ in range(r.rint(0, 2)))) if r.chance(0.3) else []
+        text, expected, optional = render_mps(r, lp, cn, rn, ints)
+        OPT[text] = optional
+        FMT[text] = "MPS"
+        jobs.append((text, expected, cn))
     batches = [jobs[i:i + 12] for i in range(0, len(jobs), 12)]
 
     def work(batch):
         lines = []
         for n, (text, expected, cn) in enumerate(batch):
-            f = "g%d.lp" % n
-            lines += ["putfile %s %s" % (hx(f), hx(text)), "read 0 LP " + hx(f), "dumpapi 0"]
+            f = "g%d.%s" % (n, "mps" if FMT.get(text) == "MPS" else "lp")
+            lines += ["putfile %s %s" % (hx(f), hx(text)), "read 0 %s " % FMT.get(text, "LP") + hx(f), "dumpapi 0"]
         return proto.run_harness(exe, lines, timeout=600, env_extra={"QSX_LOGMSG": "1"})
     from concurrent.futures import ThreadPoolExecutor
     with ThreadPoolExecutor(build.NCPU) as ex:
@@ -265,11 +453,11 @@ def run_c10(ev, rep, rng, exe, quick, pinf, ninf):
                 break
             rb, db = tr[3 * n + 1][1], tr[3 * n + 2][1]
             ev.count("file|" + text, nontrivial=True)
-            ev.stat("file:lp")
+            ev.stat("file:" + FMT.get(text, "LP").lower())
             if proto.get(rb, "read") != ["ok"]:
                 msgs = [bytes.fromhex(v[0].replace("-", "")).decode("latin-1") for k, v in rb if k == "logmsg"]
-                rep.violation("the LP reader rejects a syntactically valid generated file: %s" % " ".join(msgs)[:200], {"file": text, "messages": msgs[:12]},
-                              signature={"symptom": "file-rejected", "cause": NOTE.get(text, "?")})
+                rep.violation("the %s reader rejects a syntactically valid generated file: %s" % (FMT.get(text, "LP"), " ".join(msgs)[:200]), {"file": text, "messages": msgs[:12]},
+                              signature={"symptom": "file-rejected", "cause": NOTE.get(text, "?"), "fmt": FMT.get(text, "LP")})
                 if getattr(tr, "returncode", 0) == 3:
                     break
                 continue
@@ -277,9 +465,9 @@ def run_c10(ev, rep, rng, exe, quick, pinf, ninf):
             back = parse_dump(db)
             if back is None:
                 continue
-            diffs = compare_expected(expected, back, cn)
+            diffs = compare_expected(expected, back, cn, OPT.get(text, ()))
             if diffs:
-                rep.violation("a generated LP file is not read as the problem its text denotes: " + "; ".join(diffs[:2]), {"file": text, "diffs": diffs},
+                rep.violation("a generated " + FMT.get(text, "LP") + " file is not read as the problem its text denotes: " + "; ".join(diffs[:2]), {"file": text, "diffs": diffs},
                               signature={"symptom": "file-denotation", "kind": diffs[0].split(" ")[0]})
             if len(ev.cov["samples"]) < 7 and n == 0:
                 ev.sample({"generated_file": text[:500]})
